@@ -13,6 +13,7 @@ import bt
 from bt import bc
 
 ALIGNS = [1, 1, 1, 2, 4, 8, 8, 8, 16, 32, 64, 128]
+FOCUS_P = 0.25      # share of structures drawn from the focused layout generator
 NAMES = ['a', 'b', 'c', 'dd', 'e_1', 'Foo', 'bar', 'x', 'y', 'zz', 'len', 'id_', 'ts', 'size', 'v', 'w']
 
 
@@ -53,6 +54,8 @@ def rand_ft(rng, depth=0, allow_dyn=True):
 
 
 def rand_struct(rng, maxm=5, allow_empty=True):
+    if FOCUS_P and rng.random() < FOCUS_P:
+        return rand_struct_focus(rng)
     n = rng.randint(0 if allow_empty else 1, maxm)
     names = rng.sample(NAMES, n)
     members = []
@@ -62,6 +65,35 @@ def rand_struct(rng, maxm=5, allow_empty=True):
             members.append(('__%s_len' % nm, ('int', False, 32, 8)))
         members.append((nm, ft))
     return {'minal': rng.choice([1, 1, 1, 8, 4, 32, 64]), 'members': members}
+
+
+def rand_struct_focus(rng):
+    """Layouts aimed at the statically tracked in-byte offset of the C generator: sub-byte members
+    around (possibly empty) arrays whose elements have a byte-multiple alignment but a size that is
+    not a multiple of 8, strings followed by sub-byte members, unaligned members after aligned ones."""
+    def sub():
+        return ('int', rng.random() < 0.4, rng.choice([1, 3, 5, 7, 11, 13]), rng.choice([1, 1, 1, 2, 4]))
+
+    def odd_aligned():
+        return ('int', rng.random() < 0.3, rng.choice([3, 5, 12, 17, 20, 33]), rng.choice([8, 8, 16, 32]))
+    names = rng.sample(NAMES, 6)
+    members = []
+    for nm in names[:rng.randint(3, 6)]:
+        r = rng.random()
+        if r < 0.3:
+            members.append((nm, sub()))
+        elif r < 0.5:
+            members.append((nm, ('sarr', rng.choice([0, 0, 1, 2]), odd_aligned() if rng.random() < 0.7 else sub())))
+        elif r < 0.7:
+            members.append(('__%s_len' % nm, ('int', False, 32, 8)))
+            members.append((nm, ('darr', odd_aligned() if rng.random() < 0.7 else sub())))
+        elif r < 0.8:
+            members.append((nm, ('str',)))
+        elif r < 0.9:
+            members.append((nm, odd_aligned()))
+        else:
+            members.append((nm, ('sarr', rng.choice([0, 1, 2]), ('sarr', rng.choice([0, 1, 2]), odd_aligned()))))
+    return {'minal': rng.choice([1, 1, 8, 32]), 'members': members}
 
 
 def rand_feature_ft(rng, minbits=8, default_p=0.5):
